@@ -87,7 +87,8 @@ def all_proofs():
           expect=['parse_newline_contract.postcondition', 'loop_decreases'],
           mutants=[('crlf_leaves_lf', r"ctx.get\(\);\n         ctx.expect\('\\n'\);", "ctx.get();", 'postcondition'),
                    ('eats_any_char', r"\|\| \(ctx.peek\(\) == '\\t'\)\)", "|| (ctx.peek() == '\\\\t') || (ctx.peek() == 'x'))", 'postcondition|loop_invariant'),
-                   ('no_restore', r"ctx.restore\(\);\n   return\(false\);", "return(false);", 'postcondition')]),
+                   ('no_restore', r"ctx.restore\(\);\n   return\(false\);", "return(false);", 'postcondition'),
+                   ('votes_in_census', r"      return\(true\);\n   \}\n   ctx.restore\(\);", "      ++cpd.le_counts[0];\n      return(true);\n   }\n   ctx.restore();", 'postcondition')]),
         P('parse_bs_newline', enforce='parse_bs_newline/parse_bs_newline_contract', replace=[CNTC], loops=L_parse_bs_newline, canaries=2,
           functions=['tokenize.cpp:parse_bs_newline'], expect=['parse_bs_newline_contract.postcondition', 'loop_decreases'],
           mutants=[('bs_crlf_leaves_lf', r"if \(ch == '\\r'\)\n         \{\n            ctx.expect\('\\n'\);\n         \}", "", 'postcondition')]),
